@@ -12,7 +12,7 @@ import json, os, sys, shutil
 sys.path.insert(0, os.path.join(os.path.dirname(os.path.abspath(__file__)), "..", "..", "tools"))
 import core
 
-KNOWN = {("trimmed", "seek-absent-round"), ("trimmedc", "seek-absent-round"), ("memdb", "next-after-mutation")}
+KNOWN = set()   # (backend, shape) of recorded known findings: none left (F7, F15 repaired)
 
 
 def validate(lines, name):
